@@ -463,13 +463,6 @@ def splitLast {α : Type} : List α → Option (List α × α)
 runs the last command of a pipeline in the current shell -/
 def lastpipeOn (p : ShellPart) : Bool := (aget "lastpipe".toList p.shopts).getD false
 
-/-- what the parent itself does in a context, as opposed to what the subshell bodies do: a
-coprocess's pipe ends (`prepare`), and under `lastpipe` the last stage of a pipeline -/
-def parentOwn (root : List Str) (c : Ctx) (ms : List Mut) (p : ShellPart) : ShellPart :=
-  match c, splitLast ms with
-  | .pl, some (init, l) => if lastpipeOn p || init.isEmpty then (stepShell root l p).sh else p
-  | _, _ => prepare c p
-
 /-- what a finished background job holds (`Job::wait` returns the task's whole `ExecutionResult`) -/
 structure JobResult where
   status : Nat
@@ -478,16 +471,53 @@ structure JobResult where
 
 /-- **The synchronisation step.**  What the `wait` builtin hands to the interpreter of the parent
 after collecting the given jobs (`brush-builtins/src/wait.rs`): bare `wait` drops the results
-(`wait_all`), `wait %N` awaits the job and drops its result too (`job.wait().await?;`) — so the
-parent gets status 0 and no control-flow request, whatever the jobs ended with.  (bash returns the
-last job's status from `wait %N`; brush loses it.) -/
-def waitResult (_s : Sync) (_jobs : List JobResult) : JobResult := { status := 0, flow := .normal }
+(`wait_all`: status 0); `wait %N …` returns the exit code of the last job named
+(`job.wait().await?.exit_code.into()`, as bash does) — in both cases only a status, never the
+control-flow request the job ended with. -/
+def waitResult (s : Sync) (jobs : List JobResult) : JobResult :=
+  match s with
+  | .every => { status := 0, flow := .normal }
+  | _ => { status := ((jobs.getLast?).map (·.status)).getD 0, flow := .normal }
 
 /-- the job's body runs on a clone made while the parent is in its frame -/
 def frameShell (root : List Str) (f : Frame) (p : ShellPart) : ShellPart :=
   match f with
   | .errexit => (stepShell root (.seto "errexit".toList true) p).sh
   | _ => p
+
+/-- the background job of `.bgw _ f`: its body on a clone of the parent in its frame -/
+def bgwRun (fr : Comp → Bool) (root : List Str) (f : Frame) (ms : List Mut) (p : ShellPart) (w : World) : Run :=
+  runMuts root ms { sh := cloneWith fr (frameShell root f p), world := w, inFn := (f = .func) }
+
+/-- the exit code a job `{ ms; D; }` leaves in the job table (the dump `D` succeeds) -/
+def jobResult (r : Run) : JobResult := { status := if r.exited then r.status else 0, flow := r.flow }
+
+/-- what `wait` hands the parent in `.bgw s f` (with `wait %1 %2` a second job `{ exit 5; } &` runs too) -/
+def bgwWait (fr : Comp → Bool) (root : List Str) (s : Sync) (f : Frame) (ms : List Mut) (p : ShellPart) (w : World) : JobResult :=
+  waitResult s (jobResult (bgwRun fr root f ms p w) ::
+    (match s with | .spec2 => [{ status := 5, flow := .exit }] | _ => []))
+
+/-- the parent's own `set -e` acts on the status it received from `wait` -/
+def ownErrexit (f : Frame) (wr : JobResult) : Bool := f = .errexit && wr.status != 0
+
+/-- contexts in which a command of the parent itself may end its line: its own last pipeline stage,
+its own `set -e` -/
+def Ctx.parentActs : Ctx → Bool
+  | .pl => true
+  | .bgw _ .errexit => true
+  | _ => false
+
+/-- what the parent itself does in a context, as opposed to what the subshell bodies do: a
+coprocess's pipe ends (`prepare`); under `lastpipe` the last stage of a pipeline; under its own
+`set -e`, stopping (with `errexit` still on) when `wait %N` reports a failed job -/
+def parentOwn (root : List Str) (c : Ctx) (ms : List Mut) (p : ShellPart) (w : World) : ShellPart :=
+  match c with
+  | .pl =>
+    match splitLast ms with
+    | some (init, l) => if lastpipeOn p || init.isEmpty then (stepShell root l p).sh else p
+    | none => p
+  | .bgw s f => if ownErrexit f (bgwWait fresh root s f ms p w) then frameShell root f p else p
+  | _ => prepare c p
 
 /-- running `ms` in context `c` under parent `p`, for a given clone table -/
 def execWith (sh fr : Comp → Bool) (root : List Str) (c : Ctx) (ms : List Mut) (p : ShellPart) (w : World) : After :=
@@ -511,13 +541,13 @@ def execWith (sh fr : Comp → Bool) (root : List Str) (c : Ctx) (ms : List Mut)
         let rr := runMuts root [l] { sh := cloneWith fr r.1, world := r.2 }
         { shell := leakWith sh rr.sh r.1, world := rr.world, status := rr.status, out := rr.out }
   | .bgw s f =>
-    let r := runMuts root ms { sh := cloneWith fr (frameShell root f p0), world := w, inFn := (f = .func) }
-    let second : List JobResult := match s with | .spec2 => [{ status := 5, flow := .exit }] | _ => []
-    let wr := waitResult s ({ status := r.status, flow := r.flow } :: second)
+    let r := bgwRun fr root f ms p0 w
+    let wr := bgwWait fr root s f ms p0 w
     -- whatever the parent's interpreter is asked to do after `wait` it does: a request other than
-    -- `normal` would end its line / loop iteration / function
-    { shell := leakWith sh r.sh p0, world := r.world, status := wr.status, out := bodyOut r,
-      aborted := wr.flow != .normal }
+    -- `normal` would end its line / loop iteration / function; and its own `set -e` acts on the status
+    let own := ownErrexit f wr
+    { shell := leakWith sh r.sh (if own then frameShell root f p0 else p0), world := r.world, status := wr.status,
+      out := bodyOut r, aborted := wr.flow != .normal || own }
   | _ =>
     let r := childRun fr root ms p0 w
     { shell := leakWith sh r.sh p0, world := r.world,
